@@ -89,7 +89,7 @@ def run(ctx, scale=1):
     ctx.extra['rule'] = ('2/3 polygons: convex lattice cycles with 3-8 vertices, all permutations in rotation for <= 5 vertices and random shuffles otherwise, 0-2 repeated vertices; negation, double negation and '
                          'a plane section fed back as input; 1/3 polyhedra: hulls with 4-10 vertices and affine images of box/prism/pyramid/octahedron/tetrahedron with shuffled face order and a random vertex '
                          'order (orientation) of every face; the implementation\'s stored cycle + normal is judged by the Lean decision procedure polygonValidB / polyhedronValidB; non-trivial = every case')
-    ctx.extra['unproved'] = ['K6 sortCCW_valid: the angular sort of points in convex position is the counter-clockwise cycle (judged per constructed object)']
+    ctx.extra['unproved'] = ["Euler's formula for the reference body is a hypothesis of the polyhedron constructor theorems; that a face list is that of a Valid body is judged per constructed object (validB, proved sound)"]
     total = ctx.n(1500, 50000) * scale
     recs = []
     for part in core.pmap(work, core.chunks(ctx, total, per=60)):
